@@ -99,6 +99,15 @@ def step (s : Sem) : SemOp → Sem × List Ev
     let r := s.setCur (freeUsedCur s free used)
     (r.1, r.2 ++ [.ret (free + used - s.max)])
 
+/-- The current size an availability update asks the semaphore to apply
+(`none` for the other calls): what `UpdateSize`/`UpdateActual`/`UpdateFreeUsed`
+compute from their arguments before `oldSize < curSize` is looked at. -/
+def observedSize (s : Sem) : SemOp → Option Int
+  | .updSize n => some n
+  | .updActual n => some (if n + s.reserved > s.max then s.max else n + s.reserved)
+  | .updFreeUsed free used => some (freeUsedCur s free used)
+  | _ => none
+
 /-- Run an op sequence, collecting every event in order. -/
 def run : Sem → List SemOp → Sem × List Ev
   | s, [] => (s, [])
@@ -245,8 +254,22 @@ inductive MdState
   | other     -- complete / failed / disabled …
 deriving Repr, DecidableEq
 
-/-- `st, ok := getState(); ok && st != Queued && st != Waiting` -/
-def MdState.cancelled : MdState → Bool
+/-- The closure `canceled` of `MaxJobsSemaphore.Acquire`:
+`st, ok := getState(); ok && st != Queued && st != Waiting && !(nonblocking && st == Running)`.
+A job that is neither queued nor waiting was cancelled between being enqueued and
+now — except that the non-blocking call is the re-attach after a restart
+(`RemoteJobManager.reattach`), where a job already Running on the cluster still
+occupies its slot. -/
+def MdState.cancelled (st : MdState) (nonblocking : Bool) : Bool :=
+  match st with
+  | .waiting => false
+  | .queued => false
+  | .running => !nonblocking
+  | .other => true
+
+/-- The test as it was BEFORE the repair of the re-attach defect (audit C12-H7):
+`ok && st != Queued && st != Waiting`, also for the non-blocking re-attach. -/
+def MdState.cancelledOld : MdState → Bool
   | .waiting => false
   | .queued => false
   | _ => true
@@ -266,7 +289,7 @@ def MJ.init (limit : Int) : MJ := ⟨limit, []⟩
 /-- One pass through `Acquire` (from entry, or after being woken from
 `cond.Wait()`): `some b` = returns b, `none` = goes (back) to `cond.Wait()`. -/
 def MJ.attempt (s : MJ) (id : Nat) (st : MdState) (nonblocking : Bool) : MJ × Option Bool :=
-  if st.cancelled then (s, some false)
+  if st.cancelled nonblocking then (s, some false)
   else if s.limit ≤ (s.running.length : Int) then
     if s.limit ≤ 0 then (s, some false)
     else if s.running.contains id then (s, some true)
@@ -274,6 +297,23 @@ def MJ.attempt (s : MJ) (id : Nat) (st : MdState) (nonblocking : Bool) : MJ × O
     else (s, none)
   else
     (if s.running.contains id then s else { s with running := s.running ++ [id] }, some true)
+
+/-- `Acquire` before the repair (`cancelledOld`); kept for the negative witness
+`Props.C12.reattach_dropped_running_jobs_before_fix`. -/
+def MJ.attemptOld (s : MJ) (id : Nat) (st : MdState) (nonblocking : Bool) : MJ × Option Bool :=
+  if st.cancelledOld then (s, some false)
+  else if s.limit ≤ (s.running.length : Int) then
+    if s.limit ≤ 0 then (s, some false)
+    else if s.running.contains id then (s, some true)
+    else if nonblocking then (s, some false)
+    else (s, none)
+  else
+    (if s.running.contains id then s else { s with running := s.running ++ [id] }, some true)
+
+/-- a sequence of (old) Acquire passes `(id, state, nonblocking)` -/
+def MJ.runOld : MJ → List (Nat × MdState × Bool) → MJ
+  | s, [] => s
+  | s, (id, st, nb) :: ops => MJ.runOld (s.attemptOld id st nb).1 ops
 
 inductive MJOp
   | attempt (id : Nat) (st : MdState) (nonblocking : Bool)
@@ -367,6 +407,25 @@ cores → mem → vmem → procs, from the normalised request: `ceil(Threads*100
 `ceil(MemGB*1024)`, `int64(VMemGB)*1024` (truncation to whole GB) and
 `procsPerJob + (centiCores+99)/100`. -/
 def procsPerJob : Int := 15
+
+/-- The sizes `setupSemaphores` gives the semaphores that exist, in acquisition
+order: cores, memory, vmem only with `maxVmemMB > 0` (`--localvmem` / `ulimit -v`),
+processes only when the rlimit could be read and exceeds `startingThreadCount`
+— then with the size that is left for jobs, `rlimMax - startingThreadCount`,
+because `setupSemaphores` acquires `startingThreadCount` for mrp itself and never
+releases it (`Props.C12.standing_reservation_is_a_smaller_semaphore`). -/
+def localSizes (c : LocalCfg) (procsLeft : Option Int) : List Int :=
+  [c.maxCores * 100, c.maxMemGB * 1024] ++ (if 0 < c.maxVmemMB then [c.maxVmemMB] else []) ++
+    procsLeft.toList
+
+/-- the amounts `Enqueue` acquires on the semaphores that exist -/
+def localAmounts (c : LocalCfg) (hasProcs : Bool) (a : Int × Int × Int × Int) : List Int :=
+  [a.1, a.2.1] ++ (if 0 < c.maxVmemMB then [a.2.2.1] else []) ++ (if hasProcs then [a.2.2.2] else [])
+
+/-- decidable form of `Sane` for the driver -/
+def saneB (c : LocalCfg) : Bool :=
+  decide (1 ≤ c.maxCores) && decide (1 ≤ c.maxMemGB) && decide (1 ≤ c.threadsPerJob) &&
+    decide (1 ≤ c.memGBPerJob) && decide (0 ≤ c.extraVmemGB)
 
 def acquireAmounts (r : Req) : Int × Int × Int × Int :=
   (r.centi, r.memMb, Int.tdiv r.vmemMb 1024 * 1024, procsPerJob + Int.tdiv (r.centi + 99) 100)
